@@ -10,7 +10,7 @@ import selectors
 import subprocess
 import time
 
-from .common import BUILD, NCPU, REPO, VERIF, base_seed, finish, log, match_known, run, write_evidence
+from .common import BUILD, CPU0, NCPU, REPO, VERIF, base_seed, finish, log, match_known, run, write_evidence
 
 QUICK_S = 45
 THOROUGH_S = 15 * 60
@@ -51,7 +51,7 @@ class Worker:
             self.done = True
             self.proc = None
             return
-        cmd = [self.exe, "--batch", str(self.next_seed), str(10**9), "--stride", str(self.stride), "--cpu", str(self.idx % NCPU),
+        cmd = [self.exe, "--batch", str(self.next_seed), str(10**9), "--stride", str(self.stride), "--cpu", str(CPU0 + self.idx % NCPU),
                "--tier", self.tier, "--budget-s", "%.1f" % remaining] + self.extra
         self.proc = subprocess.Popen(cmd, stdout=subprocess.PIPE, stderr=subprocess.DEVNULL)
         os.set_blocking(self.proc.stdout.fileno(), False)
